@@ -5,7 +5,8 @@
 (*   and class becomes case-insensitive unless it sits in (?-i:..)         *)
 (*   (node field cs = TRUE).  Nothing else changes.                        *)
 (*   delegate_size_limit(n): a pattern that contains the piece D as a      *)
-(*   delegated sub-expression is rejected at build time iff D alone is.    *)
+(*   delegated sub-expression is rejected at build time iff D alone is;    *)
+(*   delegate_dfa_size_limit does not change whether a build succeeds.     *)
 (***************************************************************************)
 EXTENDS RefSem
 IsCS(e) == "cs" \in DOMAIN e /\ e.cs
@@ -26,5 +27,8 @@ SizeHosts == << << <<>>, <<>> >>,                                               
                 << <<"(">>, <<")", "\\", "1">> >>,                                    \* (D)\1
                 << <<"(", "?", ">">>, <<")", "b">> >>,                                \* (?>D)b
                 << <<"(", "?", "!", "b", ")">>, <<>> >> >>                            \* (?!b)D
-SizeLimits == <<100, 0>>      \* tiny, and 0 = builder default
+\* option combinations (0 = leave the builder default): 1 tiny size limit, 2 defaults, 3 and 4 the tiny size limit TOGETHER with a
+\* DFA size limit (set after / before it).  The DFA limit never makes a build fail, so 3 and 4 must give the verdict of 1.
+SizeLimits == << [size |-> 100, dfa |-> 0, dfafirst |-> FALSE], [size |-> 0, dfa |-> 0, dfafirst |-> FALSE],
+                 [size |-> 100, dfa |-> 100, dfafirst |-> FALSE], [size |-> 100, dfa |-> 1048576, dfafirst |-> TRUE] >>
 =============================================================================
